@@ -246,6 +246,16 @@ def build_T13(tree):
     tbl = {'graphic_data.shape[0]': 'n_points', 'graphic_data.shape[1]': 'n_dims',
            'np.array_equal(graphic_data[0],graphic_data[-1])': 'first_eq_last',
            'are_points_coplanar(graphic_data)': 'coplanar'}
+    tbl['graphic_data.ndim'] = 'n_axes'
+    for cname, lean in (('ScoordContentItem', 'scoordAxesCheck'), ('Scoord3DContentItem', 'scoord3dAxesCheck')):
+        fn = find_func(tree, cname + '.__init__')
+        g = _if_with(fn, 'graphic_data.ndim')
+        first_shape = _if_with(fn, 'graphic_type==GraphicTypeValues')
+        if fn.body.index(g) > fn.body.index(first_shape):
+            raise Unsupported(cname + '.__init__: the dimensionality guard no longer precedes the shape rules')
+        shas.append(span_sha([g]))
+        out.append(translate_block(_rewrite([g], tbl) + [_ret('True')], lean, [('n_axes', 'int')], {},
+                                   doc=f'`{cname}.__init__`: the array must be two-dimensional'))
     fn = find_func(tree, 'ScoordContentItem.__init__')
     chain = _if_with(fn, 'graphic_type==GraphicTypeValues.POINT')
     shas.append(span_sha([chain]))
